@@ -278,6 +278,18 @@ def routes_case(rep, drv, r, t, v):
                     # model compares abstract content
                     rep.count('enc-corr-in-T11-region')
                 else:
+                    # the model's octets are the canonical encoding (Props.C03: = X690.der; CER order by smallest outermost
+                    # tag): a failing input for the property itself when the library reads them as v and re-encodes otherwise
+                    try:
+                        dm = der_decoder if cdc == 'der' else cer_decoder
+                        em = der_encoder if cdc == 'der' else cer_encoder
+                        o3, rest3 = dm.decode(me[1], asn1Spec=schema)
+                        if not rest3 and gen.val_equiv(t, gen.abstract(t, o3), v) and enc(em, o3) != me[1].hex() \
+                                and not (cdc == 'cer' and wire.e1_applies(t, v)):
+                            rep.fail('reencode-of-canonical-differs-' + cdc, '%s(decode(e)) = %s for the %s encoding e = %s' % (
+                                cdc, enc(em, o3)[:160], cdc.upper(), me[1].hex()[:160]), dict(replay, codec=cdc, bytes=me[1].hex()))
+                    except Exception:  # noqa
+                        pass
                     rep.disagree('ENC', dict(replay, codec=cdc), me[1].hex(), ref[cdc])
         elif (me[0] == 'ok') != (not ref[cdc].startswith('err')):
             if classify(t, v, ref[cdc]) is None:
@@ -500,6 +512,15 @@ def history_pair(rep, drv, r, kind, length):
 # ----------------------------------------------------------------------------- corpus
 
 ROUTE_CORPUS = [
+    # a SET with an untagged CHOICE member: the canonical place of the member is decided by the outermost tag of the chosen
+    # alternative (DER) / the smallest outermost tag of the alternatives (CER) whatever the route; alternatives explicitly
+    # tagged so that base tags and outer tags order differently, a sibling in between
+    ('(set (r (tag i c 4 int)) (r (choice (r (tag e c 5 (str 4))) (r (tag e c 3 (str 12))))))', '(seq (i 1) (ch 1 (s 78)))'),
+    ('(set (r (tag i c 4 int)) (r (choice (r (tag e c 5 (str 4))) (r (tag e c 3 (str 12))))))', '(seq (i 1) (ch 0 (s 78)))'),
+    ('(set (r (tag i c 4 int)) (r (choice (r (tag e c 5 int)) (r (tag i c 3 (str 4))) (r (tag e c 6 bool)))) (r (tag i c 7 null)))', '(seq (i 1) (ch 0 (i 9)) null)'),
+    ('(set (r (tag i c 4 int)) (r (choice (r (tag e c 5 int)) (r (tag i c 3 (str 4))) (r (tag e c 6 bool)))) (r (tag i c 7 null)))', '(seq (i 1) (ch 2 (b 1)) null)'),
+    ('(set (r (str 4)) (r (choice (r (tag e a 1 (str 12))) (r (tag e c 0 int)))) (o (tag i p 2 bool)))', '(seq (s 6162) (ch 1 (i 300)) (b 0))'),
+    ('(set (r (tag e c 2 (str 4))) (r (choice (r (tag e c 3 int)) (r (tag e c 1 (seq (r int)))))))', '(seq (s 61) (ch 0 (i 5)))'),
     # a DEFAULT member whose default is a non-empty SEQUENCE OF / SET OF, the value equal to the default: built in any
     # order of positions, the member is recognised as the default and left out
     ('(seq (r int) (d (of (i 1) (i 2)) (seqof int)))', '(seq (i 5) (of (i 1) (i 2)))'),
